@@ -63,6 +63,19 @@ def _is_abstract(idx, ci):
     return False
 
 
+def _is_template_base(idx, ci, call):
+    """A private base whose __call__ relies on a method only its subclasses define (template method), with reviewed
+    schedules among its subclasses: analysed through those subclasses, not on its own."""
+    subs = [q for q in idx.subclasses(ci.qualname, strict=True) if q.split('.')[-1] in REVIEWED]
+    if not subs:
+        return False
+    for n in ast.walk(call.node):
+        if isinstance(n, ast.Call) and isinstance(n.func, ast.Attribute) and isinstance(n.func.value, ast.Name) \
+                and n.func.value.id == call.params[0] and idx.lookup(ci, n.func.attr) is None:
+            return True
+    return False
+
+
 def _expand_self_calls(idx, ci, paths, depth=3):
     """Template-method support: replace `self.m(args)` in the paths by the paths of the method the concrete class
     resolves m to (guards are conjoined, the call term is replaced by the callee's return value)."""
@@ -261,8 +274,8 @@ def d1_schedules(ctx, idx):
             call = idx.lookup(ci, '__call__')
             if call is None or not call.module.name.startswith(MOD):
                 continue
-            if name not in REVIEWED and _is_abstract(idx, ci):
-                continue          # an abstract template base is not a schedule; its concrete subclasses are analysed through it
+            if name not in REVIEWED and (_is_abstract(idx, ci) or _is_template_base(idx, ci, call)):
+                continue          # a template base is not a schedule; its concrete subclasses are analysed through it
             if name not in REVIEWED:
                 r_first.undecided(ci.qualname, 'new schedule class that was not reviewed', ci.loc)
                 continue
@@ -971,6 +984,28 @@ def _iterable_kinds(r, tb, fi, iter_node, pR, in_list, anchor, where):
         r.violation('scaling loop: iterable', 'the loop iterates over `%s`, a part of result[\'input_list\']: the other inputs keep '
                     'their unscaled grade' % ai.show(it), where, expected="result['input_list']", found=ai.show(it))
         return []
+    # the iterable may be chosen per branch (`entries, key = (result['input_list'], ...)` / `([result], ...)`): decide it on every
+    # path of the whole function, under that path's decision about 'input_list' in result
+    try:
+        fpaths = [p for p in ai.sym_exec(tb.idx, fi, loops='opaque') if p.kind in ('fall', 'ret')]
+    except Unsupported:
+        fpaths = []
+    seen_kinds, okay = set(), bool(fpaths)
+    for p in fpaths:
+        names = {n.id for n in ast.walk(iter_node) if isinstance(n, ast.Name)}
+        if not all(n in p.env or n == pR[1] for n in names):
+            continue                     # the path ends before the iterable is bound (early exits)
+        itp = tb.build(iter_node, p.env)
+        if in_list_t in p.conds and itp == lst:
+            seen_kinds.add('list')
+        elif ai.t_not(in_list_t) in p.conds and itp == single:
+            seen_kinds.add('single')
+        else:
+            okay = False
+            it = itp
+    if okay and seen_kinds == {'list', 'single'}:
+        r.ok('scaling loop: iterable', "result['input_list'] when 'input_list' in result, else [result] (chosen per branch)", where)
+        return ['list', 'single']
     r.undecided('scaling loop: iterable', 'iterable `%s` not recognised' % ai.show(it), where)
     return []
 
@@ -1430,6 +1465,9 @@ _SCALE_UNIFIED = '        entries = result[\'input_list\'] if "input_list" in re
 _NOTE_OLD = '        if self.config[\'attempt_based_credit_msg\'] and changed_result:\n            credit_decimal = Decimal(credit * 100).quantize(Decimal(\'.1\'))\n            if credit_decimal == int(credit_decimal):\n                # Used to get rid of .0 appearing in percentages\n                credit_decimal = int(credit_decimal)\n            msg = "Maximum credit for attempt #{} is {}%."\n            if "input_list" in result:\n                key = \'overall_message\'\n            else:\n                key = \'msg\'\n            if result[key]:\n                result[key] += \'\\n\\n\'\n            result[key] += msg.format(attempt_number, credit_decimal)\n\n'
 _NOTE_EARLY_RETURN = '        if not self.config[\'attempt_based_credit_msg\'] or not changed_result:\n            return\n        credit_decimal = Decimal(credit * 100).quantize(Decimal(\'.1\'))\n        if credit_decimal == int(credit_decimal):\n            credit_decimal = int(credit_decimal)\n        key = \'overall_message\' if "input_list" in result else \'msg\'\n        if result[key]:\n            result[key] += \'\\n\\n\'\n        result[key] += f"Maximum credit for attempt #{attempt_number} is {credit_decimal}%."\n\n'
 
+_TAIL_OLD = '        changed_result = False\n        if "input_list" in result:\n            for results_dict in result[\'input_list\']:\n                if results_dict[\'grade_decimal\'] > 0:\n                    grade = results_dict[\'grade_decimal\'] * credit\n                    results_dict[\'grade_decimal\'] = grade\n                    results_dict[\'ok\'] = self.grade_decimal_to_ok(grade)\n                    changed_result = True\n        else:\n            if result[\'grade_decimal\'] > 0:\n                grade = result[\'grade_decimal\'] * credit\n                result[\'grade_decimal\'] = grade\n                result[\'ok\'] = self.grade_decimal_to_ok(grade)\n                changed_result = True\n\n        # Append the message if credit was reduced\n        if self.config[\'attempt_based_credit_msg\'] and changed_result:\n            credit_decimal = Decimal(credit * 100).quantize(Decimal(\'.1\'))\n            if credit_decimal == int(credit_decimal):\n                # Used to get rid of .0 appearing in percentages\n                credit_decimal = int(credit_decimal)\n            msg = "Maximum credit for attempt #{} is {}%."\n            if "input_list" in result:\n                key = \'overall_message\'\n            else:\n                key = \'msg\'\n            if result[key]:\n                result[key] += \'\\n\\n\'\n            result[key] += msg.format(attempt_number, credit_decimal)\n\n'
+_TAIL_ENTRIES_AND_KEY_PICKED_ONCE = '        if "input_list" in result:\n            entries, msg_key = result[\'input_list\'], \'overall_message\'\n        else:\n            entries, msg_key = [result], \'msg\'\n        changed_result = False\n        for entry in entries:\n            if entry[\'grade_decimal\'] > 0:\n                grade = entry[\'grade_decimal\'] * credit\n                entry[\'grade_decimal\'] = grade\n                entry[\'ok\'] = self.grade_decimal_to_ok(grade)\n                changed_result = True\n\n        # Append the message if credit was reduced\n        if self.config[\'attempt_based_credit_msg\'] and changed_result:\n            credit_decimal = Decimal(credit * 100).quantize(Decimal(\'.1\'))\n            if credit_decimal == int(credit_decimal):\n                credit_decimal = int(credit_decimal)\n            msg = "Maximum credit for attempt #{} is {}%."\n            if result[msg_key]:\n                result[msg_key] += \'\\n\\n\'\n            result[msg_key] += msg.format(attempt_number, credit_decimal)\n\n'
+
 MUTANTS = [
     Mutant('linear-sign', CREDIT, "credit = 1 + (min_cred - 1) * steps / decrease_steps", "credit = 1 - (min_cred - 1) * steps / decrease_steps", 'D1'),
     Mutant('linear-divisor', CREDIT, "credit = 1 + (min_cred - 1) * steps / decrease_steps", "credit = 1 + (min_cred - 1) * steps / (decrease_steps + 1)", 'D1'),
@@ -1485,6 +1523,7 @@ MUTANTS = [
 ]
 
 BENIGN = [
+    Benign('entries-and-message-key-picked-once', BASE, _TAIL_OLD, _TAIL_ENTRIES_AND_KEY_PICKED_ONCE),
     Benign('positive-validator-with-starred-bounds', 'mitxgraders/helpers/validatorfuncs.py',
            "    if thetype == int:\n        return All(thetype, Range(1, float('inf')))\n    else:\n        return All(thetype, Range(0, float('inf')), NotIn([0]))\n",
            "    if thetype == int:\n        bounds = [Range(1, float('inf'))]\n    else:\n        bounds = [Range(0, float('inf')), NotIn([0])]\n    return All(thetype, *bounds)\n"),
